@@ -207,7 +207,10 @@ def check_proofs(ctx, pid=None, extra_targets=()):
         f.write("From GPA Require Import %s.\n" % pid)
         for t in thms:
             f.write('Goal True. idtac "@@THM %s". Abort.\nPrint Assumptions %s.\n' % (t, t))
-    with Lock("coq", shared=True):
+    rc, out, err = sh(["coqc", "-noglob", "-Q", COQ, "GPA", probe], timeout=900)
+    if rc != 0 and "inconsistent assumptions" in (out + err):
+        time.sleep(5)
+        ok2, _ = coq_make(ctx, ["Props/%s.vo" % pid])
         rc, out, err = sh(["coqc", "-noglob", "-Q", COQ, "GPA", probe], timeout=900)
     if rc != 0:
         return False, "assumption probe failed: " + (out + err)[-1500:]
@@ -407,12 +410,25 @@ def coq_eval(ctx, requires, exprs, prelude="", shard=200, timeout=600, name="cas
             raise RuntimeError("coqc output count mismatch %d vs %d" % (len(res), len(sh_exprs)))
         return res
 
-    # readers of the compiled .vo files hold the Coq lock in shared mode, so that a concurrent
-    # check rebuilding the development (exclusive) cannot make them see inconsistent objects
-    with Lock("coq", shared=True):
-        with ThreadPoolExecutor(max_workers=min(int(os.environ.get("VERIF_COQ_JOBS", "8")), len(shards))) as ex:
-            chunks = list(ex.map(run, enumerate(shards)))
-    return [r for c in chunks for r in c]
+    # Evaluators read the compiled .vo files without holding the build lock (a long evaluation
+    # must not block other checks' builds).  If a concurrent check rebuilt part of the development
+    # meanwhile, coqc reports inconsistent / missing objects: wait for the build lock and retry.
+    last = None
+    for attempt in range(4):
+        try:
+            with ThreadPoolExecutor(max_workers=min(int(os.environ.get("VERIF_COQ_JOBS", "8")), len(shards))) as ex:
+                chunks = list(ex.map(run, enumerate(shards)))
+            return [r for c in chunks for r in c]
+        except RuntimeError as e:
+            last = e
+            msg = str(e)
+            if not any(k in msg for k in ("inconsistent assumptions", "Cannot find a physical path", "Unable to locate library", "Compiled library", "bad version number", "No such file")):
+                raise
+            time.sleep(3 + 5 * attempt)
+            with Lock("coq"):
+                _refresh_makefile()
+                sh(["make", "-j8"], cwd=COQ, timeout=3000)
+    raise last
 
 
 # ----------------------------------------------------------------------------------------
